@@ -161,6 +161,17 @@ def bases(rnd, quick):
     if not quick:
         for _ in range(20):
             out.append([util.rand_perm(rnd, rnd.choice([3, 4, 4, 5])) for _ in range(rnd.randint(2, 3))])
+    if not quick:
+        # elements of length 7 (the table of all pin words of length 7 costs a minute): pin permutations that are direct or
+        # skew sums with two components of more than one point, and simple ones; alone and next to a short element
+        table7 = PinWords.perm_to_pinword_mapping(7)
+        pins7 = sorted(p for p in table7 if table7[p])
+        split = [p for p in pins7 if any(sum(len(c) > 1 for c in comp) >= 2 for comp in (p.sum_decomposition(), p.skew_decomposition()))]
+        simple7 = [p for p in pins7 if p.is_simple()]
+        for pool in (split, simple7):
+            for p in rnd.sample(pool, min(4, len(pool))):
+                out.append([tuple(p)])
+                out.append([tuple(p), rnd.choice(util.perms_of(3))])
     # repeated elements; an element contained in another one (listed before and after it); degenerate bases
     out += [[(0, 2, 1), (0, 2, 1)], [(1, 0, 2), (0, 1, 2), (1, 0, 2)], [(0, 1), (0, 2, 1)], [(0, 3, 2, 1), (0, 2, 1)],
             [(2, 0, 1), (1, 3, 0, 2), (2, 0, 1), (0, 1)], [], [()], [(), (0, 1)]]
